@@ -217,13 +217,13 @@ func c11Prog(rep *Report, c *segCase, dir, segBin, combBin string, idx int, note
 	for t, tr := range c.Tracks {
 		kinds[t] = fmt.Sprintf("%s n=%d sync=%v ctts=%v spc=%v", tr.Kind, len(tr.Durs), tr.Sync, len(tr.Ctos) > 0, tr.Spc)
 	}
-	for _, mode := range []string{"single", "mux", "lazy"} {
+	for _, mode := range []string{"single", "mux", "lazy", "mux-lazy"} {
 		cs := J{"tool": "segmenter", "mode": mode, "d": c.D, "tracks": kinds}
 		a := []string{"-d", fmt.Sprint(c.D)}
-		if mode == "mux" {
+		if mode == "mux" || mode == "mux-lazy" {
 			a = append(a, "-m")
 		}
-		if mode == "lazy" {
+		if mode == "lazy" || mode == "mux-lazy" {
 			a = append(a, "-lazy")
 		}
 		pre := "out_" + mode
@@ -243,7 +243,7 @@ func c11Prog(rep *Report, c *segCase, dir, segBin, combBin string, idx int, note
 			var file []byte
 			track := 1
 			var segFiles []string
-			if mode == "mux" {
+			if mode == "mux" || mode == "mux-lazy" {
 				ib, _ := ioutil.ReadFile(filepath.Join(dir, pre+"_init.mp4"))
 				file = ib
 				segFiles, _ = filepath.Glob(filepath.Join(dir, pre+"_media_*.m4s"))
